@@ -175,7 +175,7 @@ PROPS = {
                 "commands; bare, optional, defaulted, many, some) among other fields. Derivations "
                 "using one alternative per round must yield exactly that alternative's value "
                 "(repeated choices: values in command-line order); lines mixing items of two "
-                "alternatives of a non-repeated choice must fail on stderr.  A third of the `many` choices are repeated choices between adjacent commands (`build --release test build`). " + DISTINCT,
+                "alternatives of a non-repeated choice must fail on stderr.  A third of the `many` choices are repeated choices between adjacent commands (`build --release test build`); a quarter of the repeated choices have an adjacent group among single flags, and a one-word alternative written inside its block must fail. " + DISTINCT,
         "assumptions": COMMON_ASSUMPTIONS + [
             "Branches of repeated choices contain only required single-occurrence items (an "
             "optional member would legitimately take occurrences meant for a later round).",
